@@ -48,7 +48,7 @@ func c14Gen(seed uint64, i int, ntexts int) *c14Case {
 		}
 	}
 	src := gen.RenderProgram(p)
-	alpha := []byte("abc\n 1dA-.*+?|()[]{}^$")
+	alpha := []byte("abc\n 1dA-.*+?|()[]{}^$/,09")
 	sm := gen.NewSampler(rng, p, alpha)
 	texts := sm.Inputs(p.Commands[0].Body, ntexts, maxLenFor(p, 14))
 	cs := &c14Case{rg, re, p, src, texts, nil}
@@ -103,7 +103,7 @@ func C14(r *drv.Run) {
 	if !quick(r) {
 		n, ntext = 150000, 16
 	}
-	r.Rule = "generated regexes of the stated subset (literals, ., bracket classes with ranges and negation, \\d \\D \\s \\S, plain/non-capturing/named groups, * + ? {m} {m,} {m,n} and lazy forms, alternations whose operands are single quantified atoms or groups, ^ $ at the ends, numbered and named back-references to closed groups, one case in eight with 9..12 groups and two-digit back-references; sometimes an unrelated stored pattern of the same name as a named group earlier in the source; repeated bodies non-nullable), <= ~12 nodes; texts <= 14 ASCII bytes without \\r and \\f derived from the regex; a third of the cases compiled right after another source in the same process (one that fails after opening regex groups, or one with several groups). Oracle 1: Go regexp given the SAME source, evaluated position by position (spans and group texts) when the regex has no back-reference. Oracle 2: reference backtracker on the harness's own translation (always; the only oracle for back-references). Non-trivial = >= 1 match expected AND VM backtracked; distinct by (regex, text)."
+	r.Rule = "generated regexes of the stated subset (literals, ., bracket classes with ranges and negation (also opened or closed by a literal hyphen, or opened by a range that starts at the hyphen), \\d \\D \\s \\S, plain/non-capturing/named groups, * + ? {m} {m,} {m,n} and lazy forms, alternations whose operands are single quantified atoms or groups, ^ $ at the ends, numbered and named back-references to closed groups, one case in eight with 9..12 groups and two-digit back-references; sometimes an unrelated stored pattern of the same name as a named group earlier in the source; repeated bodies non-nullable), <= ~12 nodes; texts <= 14 ASCII bytes without \\r and \\f derived from the regex; a third of the cases compiled right after another source in the same process (one that fails after opening regex groups, or one with several groups). Oracle 1: Go regexp given the SAME source, evaluated position by position (spans and group texts) when the regex has no back-reference. Oracle 2: reference backtracker on the harness's own translation (always; the only oracle for back-references). Non-trivial = >= 1 match expected AND VM backtracked; distinct by (regex, text)."
 	r.Assumptions = []string{
 		"Go regexp (leftmost-first) is the conventional backtracking engine on the back-reference-free subset; for back-references the harness reference matcher is",
 		"when a regex mixes named and numbered capturing groups only named back-references are generated (vore numbers only the unnamed groups, a conventional engine numbers all of them); group texts are compared by position of the opening parenthesis",
